@@ -24,7 +24,7 @@ def run_job(args):
     base, k, hists, hook = args
     d = os.path.join(base, "w%d" % k); os.makedirs(d)
     jf = os.path.join(d, "job.json"); json.dump({"dir": d, "hists": hists, "clients": [1, 2], "hook": hook}, open(jf, "w"))
-    p = subprocess.run(["/venv/bin/python", WORKER, jf], env=dict(os.environ, PYTHONPATH="/repo", PYTHONDONTWRITEBYTECODE="1"), capture_output=True, text=True, timeout=3000)
+    p = subprocess.run(["/venv/bin/python", WORKER, jf], env=dict(os.environ, PYTHONPATH=os.environ.get("VERIF_REPO", "/repo"), PYTHONDONTWRITEBYTECODE="1"), capture_output=True, text=True, timeout=3000)
     if not os.path.exists(jf + ".out"): raise RuntimeError("tracker worker failed: " + p.stderr[-500:])
     r = json.load(open(jf + ".out")); shutil.rmtree(d, ignore_errors=True)
     return r
